@@ -159,7 +159,8 @@ pub fn check(cx: &Cx, rep: &mut Report) {
             let gone_before = child.first_term_cause().map(|c| c < e.stamp).unwrap_or(false) || child.failed();
             rep.premise("C16.R3.broadcast_exactly_once");
             nontrivial = true;
-            if n > regs || (n < regs && !gone_before) {
+            let final_ok = !cx.mt || matches!(child.t_final(), Some((_, Some(_))));
+            if n > regs || (n < regs && !gone_before && final_ok) {
                 rep.fail(P, "R3", if n < regs { "broadcast_lost" } else { "broadcast_duplicated" }, format!("broadcast {buid} of type {ty} sent by actor task {actor} at #{} was handled {n} times by child tag {ctag} (registered {regs}x under that type)", e.stamp), vec![e.stamp]);
             }
         }
@@ -180,7 +181,8 @@ pub fn check(cx: &Cx, rep: &mut Report) {
         let gone = child.failed() || child.first_term_cause().map(|c| unit_bcasts.iter().any(|b| b.1 > c)).unwrap_or(false);
         if expect > 0 || got > 0 {
             rep.premise("C16.R3.unit_broadcast_count");
-            if got > expect || (got < expect && !gone) {
+            let final_ok = !cx.mt || matches!(child.t_final(), Some((_, Some(_))));
+            if got > expect || (got < expect && !gone && final_ok) {
                 rep.fail(P, "R3", if got < expect { "unit_broadcast_lost" } else { "unit_broadcast_duplicated" }, format!("child tag {ctag} handled {got} `()` broadcasts, {expect} were sent to it"), vec![]);
             }
         }
